@@ -641,6 +641,7 @@ class C16(Prop):
         qs = []; meta = []
         for _ in range(ctx.scale(150, 2000)):
             rb = gen.gen_rb(rng, rng.choice([0, 1, 2]), False, families.AB_ANALYSIS + ["never"], True, positive=False)
+            if rb[0] == "rbf" and rng.random() < 0.3: rb = ["default_rb", rb]     # user-defined bound relying on the trait's provided methods
             d = rng.choice([rng.randint(0, 20), rng.randint(10, 120)])
             n = rng.randint(0, 8)
             base = len(qs)
@@ -651,7 +652,7 @@ class C16(Prop):
                 for c in comps:
                     qs += [["sn", c, d], ["jc", c, d], ["lw", c, d], ["snn", c, d, n]]
             else:
-                r = rb[1] if rb[0] == "boxed" else rb
+                r = rb[1] if rb[0] in ("boxed", "default_rb") else rb
                 qs += [["na", r[1], d], ["cost", r[2], 0], ["jobcosts", r[2], 0]]
             meta.append((base, rb, d, n, len(comps)))
         # resolve the single-RBF cases in a second pass (cost of na jobs)
@@ -659,7 +660,7 @@ class C16(Prop):
         qs2 = []; back = []
         for (base, rb, d, n, nc) in meta:
             if nc == 0:
-                r = rb[1] if rb[0] == "boxed" else rb
+                r = rb[1] if rb[0] in ("boxed", "default_rb") else rb
                 nav = rows[base + 6][1]
                 if nav and nav[0] == "n":
                     qs2 += [["cost", r[2], nav[1]], ["jobcosts", r[2], nav[1]], ["least", r[2], nav[1]]]; back.append(base)
@@ -708,6 +709,7 @@ class C14(Prop):
         qs = []; meta = []
         for _ in range(ctx.scale(150, 2000)):
             cm = gen.gen_cm(rng, False, positive=False)
+            if rng.random() < 0.2: cm = ["default_cm", cm]       # a user-defined model relying on the trait's provided methods
             N = rng.randint(1, 30)
             base = len(qs)
             qs += [["cost", cm, 0], ["jobcosts", cm, N]] + [["cost", cm, k] for k in range(1, N + 1)] + [["least", cm, k] for k in (1, max(1, N // 2), N)]
@@ -2207,6 +2209,8 @@ class C15(Prop):
         for _ in range(ctx.scale(80, 800)):
             rd = rng.choice([1, 10, 100]); rn = rng.randint(1, 30); delta = rng.randint(0, 600); k = rng.randint(0, 40) + int(rn * delta / rd)
             qs.append(["poisson_pmf", rn, rd, delta, max(0, k - rng.randint(0, 30))]); meta.append(("pmf", len(qs) - 1))
+        for k in (0, 1, 3):         # the degenerate zero-mean process: all mass at k = 0
+            qs.append(["poisson_pmf", rng.randint(1, 30), rng.choice([1, 10, 100]), 0, k]); meta.append(("pmf", len(qs) - 1))
         rows = ctx.run(qs, model=False)
         # the certified band test on the implementation's answers
         cq = []; cmeta = []
